@@ -384,13 +384,12 @@ def ifm_block(V, accel, dil_x, dil_y, upscale):
     kw, kh = V.int("kernel_w", 1, 64), V.int("kernel_h", 1, 64)
     sx, sy = V.int("stride_x", 1, 3), V.int("stride_y", 1, 3)
     bw, bh, bd = V.int("ofm_block_w", 1, 64), V.int("ofm_block_h", 1, 64), V.int("ifm_block_depth", 1, 64)
-    k = Kernel.__new__(Kernel)
-    from ethosu.vela.operation import PointXY
-    k.width, k.height, k.stride, k.dilation = kw, kh, PointXY(sx, sy), PointXY(dil_x, dil_y)
     mode = [resampling_mode.NONE, resampling_mode.NEAREST, resampling_mode.TRANSPOSE][upscale]
     import ethosu.vela.register_command_stream_util as u
     from ethosu.vela.architecture_features import Rect
     from ethosu.vela import api as a
+
+    k = u.to_kernel(a.NpuKernel(kw, kh, sx, sy, dil_x, dil_y))  # as calc_blockdep obtains the kernel from the operation
 
     vol = None
     with core.shims((af, {"min": core.smin, "max": core.smax, "int": core.sint}), (nu, {"math": rat.SMATH, "int": core.sint}),
@@ -418,6 +417,30 @@ def ifm_block(V, accel, dil_x, dil_y, upscale):
                 ("calc_blockdep's first-job input volume has that height", L(vol[1].y) - L(vol[0].y) == need(bh, sy, kh, dil_y, sub.height, ub.height)),
                 ("calc_blockdep's first-job input volume has that width", L(vol[1].x) - L(vol[0].x) == need(bw, sx, kw, dil_x, sub.width, ub.width)),
                 ("calc_blockdep's first-job input volume has the block depth", L(vol[1].z) - L(vol[0].z) == L(bd))])
+
+
+def kernel_conversion(V):
+    """the kernel the BLOCKDEP analysis, the block-config search and the SHRAM layout work with is the operation's kernel: the REAL to_kernel /
+    to_npu_kernel on six symbolic fields keep width, height, both strides and both dilations in their own places (and the dilated extents that
+    follow from them), in both directions"""
+    import ethosu.vela.register_command_stream_util as u
+    from ethosu.vela import api as a
+    from ethosu.vela.operation import Kernel
+
+    f = {n: V.int(n, 1, 64) for n in ("w", "h", "stride_x", "stride_y", "dilation_x", "dilation_y")}
+    k = u.to_kernel(a.NpuKernel(f["w"], f["h"], f["stride_x"], f["stride_y"], f["dilation_x"], f["dilation_y"]))
+    n = u.to_npu_kernel(Kernel(f["w"], f["h"], f["stride_x"], f["stride_y"], f["dilation_x"], f["dilation_y"]))
+    got_k = dict(w=k.width, h=k.height, stride_x=k.stride.x, stride_y=k.stride.y, dilation_x=k.dilation.x, dilation_y=k.dilation.y)
+    got_n = dict(w=n.width, h=n.height, stride_x=n.stride_x, stride_y=n.stride_y, dilation_x=n.dilation_x, dilation_y=n.dilation_y)
+    cl = []
+    for name in f:
+        cl.append(("to_kernel keeps %s" % name, L(got_k[name]) == L(f[name])))
+        cl.append(("to_npu_kernel keeps %s" % name, L(got_n[name]) == L(f[name])))
+    cl.append(("dilated extents of the converted kernel", z3.And(L(k.area_width()) == (L(f["w"]) - 1) * L(f["dilation_x"]) + 1,
+                                                               L(k.area_height()) == (L(f["h"]) - 1) * L(f["dilation_y"]) + 1)))
+    d = u.to_kernel(None)
+    cl.append(("no kernel means 1x1, stride 1, no dilation", (d.width, d.height, d.stride.x, d.stride.y, d.dilation.x, d.dilation.y) == (1, 1, 1, 1, 1, 1)))
+    return cl
 
 
 def programmed_addresses(V, **params):
@@ -639,11 +662,11 @@ def intersects_sound(V, same_base):
     return [("two areas that share a byte are reported as intersecting", B(got))]
 
 
-FUNCS = {"intersects_sound": intersects_sound, "range_lists": range_lists, "job_volume": job_volume, "footprint_strided": footprint_strided, "area_ranges": area_ranges, "block_coords": block_coords, "programmed_addresses": programmed_addresses, "ifm_block": ifm_block, "waits": waits, "wait_step": wait_step, "rangeset": rangeset, "access": access, "dma_access": dma_access, "blockdep": blockdep, "shram_writes": shram_writes}
+FUNCS = {"kernel_conversion": kernel_conversion, "intersects_sound": intersects_sound, "range_lists": range_lists, "job_volume": job_volume, "footprint_strided": footprint_strided, "area_ranges": area_ranges, "block_coords": block_coords, "programmed_addresses": programmed_addresses, "ifm_block": ifm_block, "waits": waits, "wait_step": wait_step, "rangeset": rangeset, "access": access, "dma_access": dma_access, "blockdep": blockdep, "shram_writes": shram_writes}
 
 
 def instances(tier, seed):
-    out = []
+    out = [dict(key="kernel_conversion", fn="kernel_conversion", params={})]
     for accel in ("Ethos_U55_32", "Ethos_U55_128", "Ethos_U65_256", "Ethos_U65_512"):
         for dx, dy in ((1, 1), (2, 1), (1, 2)):
             for ups in (0, 1, 2):
